@@ -72,6 +72,14 @@ Theorem C06_port_sized_by_a_parameter_is_checked_against_it : forall r r',
 Proof. exact ipv_parameter_sized_port. Qed.
 Print Assumptions C06_port_sized_by_a_parameter_is_checked_against_it.
 
+(* Max / Min of terms that differ by constants are worked out like the symbolic backend does (Max(N + 2, N) is N + 2): a port
+   fed max(N + 2, N) - N qubits against a declaration of 6 is a VIOLATED constraint, against 2 a satisfied one *)
+Example C06_max_of_shifted_terms_decided :
+  let N := ESym "N" in
+  let fed := EOp OSub [EOp OMax [eadd N (EZ 2); N]; N] in
+  statusE fed (EZ 6) = CViolated /\ statusE fed (EZ 2) = CSatisfied /\ statusE (EOp OMin [N; eadd N (EZ 1); N]) N = CSatisfied.
+Proof. vm_compute. repeat split; reflexivity. Qed.
+
 (* non-vacuity: a symbolic consistent pair, a symbolic contradiction, an undecided pair *)
 Example C06_nonvacuous :
   let N := ESym "N" in
